@@ -7,7 +7,12 @@
 (*  (b) batches (pre-2025-06-18): every composition of calls, notifications   *)
 (*      and calls to unknown methods x every completion order of the calls;   *)
 (*      Expected transcribes ioConn's bookkeeping (Read tracks the requests   *)
-(*      of a batch, Write flushes when none is unresolved).                   *)
+(*      of a batch, Write flushes when none is unresolved); the ids of a      *)
+(*      batch are re-usable once the peer holds the reply, before or after    *)
+(*      the SDK's Write of it has returned.                                   *)
+(*  (c) reply framing (C01): the SDK side has 1..3 calls outstanding and the   *)
+(*      peer frames its responses (+ a notification, + a call) in every way    *)
+(*      JSON-RPC 2.0 allows; Expected transcribes ioConn.Read's queueing.     *)
 EXTENDS Integers, Sequences, FiniteSets, TLC
 
 Eras == {"2025-03-26", "2025-06-18", "2025-11-25"}
@@ -64,19 +69,31 @@ NCallsGated(ms) == Cardinality({i \in DOMAIN ms : ms[i] = "call"})
 NCalls(ms) == Cardinality({i \in DOMAIN ms : ms[i] \in {"call", "unk"}})
 NNotifs(ms) == Cardinality({i \in DOMAIN ms : ms[i] = "notif"})
 Perms(n) == {f \in [1..n -> 1..n] : \A i, j \in 1..n : i # j => f[i] # f[j]}
-BatchCases(n) == { [t |-> "batch", era |-> "2025-03-26", members |-> ms, order |-> ord] :
-                     ms \in SeqsUpTo(n), ord \in UNION {Perms(k) : k \in 0..n} }
-BatchSet(n) == {c \in BatchCases(n) : Len(c.order) = NCallsGated(c.members)}
+\* When the peer re-uses the ids of a batch.  It may do so as soon as it HOLDS the batch reply: "received" = the reply has
+\* been delivered to the peer but the SDK's Write of it has not returned yet (the peer's next batch is read by the SDK's
+\* read loop inside that window); "returned" = after that Write has returned.
+ReuseTimings == {"returned", "received"}
+\* the instants of a batch's life, in order; an id is busy from "read" until the instant the bookkeeping frees it
+Instant == [read |-> 0, recorded |-> 1, received |-> 2, returned |-> 3]
+\* ioConn.updateBatch forgets an id when its response is RECORDED (under the write lock, before the reply is marshalled)
+CodeFreesIdsAt == "recorded"
+BatchCases(n) == { [t |-> "batch", era |-> "2025-03-26", members |-> ms, order |-> ord, reuse |-> ru] :
+                     ms \in SeqsUpTo(n), ord \in UNION {Perms(k) : k \in 0..n}, ru \in ReuseTimings }
+\* (a batch without calls has no reply, hence no window)
+BatchSet(n) == {c \in BatchCases(n) : Len(c.order) = NCallsGated(c.members) /\ (NCalls(c.members) = 0 => c.reuse = "returned")}
 \* longer batches of notifications and calls (calls released in member order): in-order handling (C03) and the
 \* bookkeeping of ids beyond the first few members
 LongMembers == UNION {[1..k -> {"call", "notif"}] : k \in 4..6}
 IdPerm(n) == [i \in 1..n |-> i]
-LongBatchSet == { [t |-> "batch", era |-> "2025-03-26", members |-> ms, order |-> IdPerm(NCallsGated(ms))] : ms \in LongMembers }
+LongBatchSet == { c \in { [t |-> "batch", era |-> "2025-03-26", members |-> ms, order |-> IdPerm(NCallsGated(ms)), reuse |-> ru] :
+                              ms \in LongMembers, ru \in ReuseTimings } : NCalls(c.members) = 0 => c.reuse = "returned" }
 
 \* ioConn tracks only the CALLS of a batch as unresolved; the reply array is written when the last one is answered
 ExpectedBatch(c) ==
   LET nc == NCalls(c.members) IN
-  [alive |-> TRUE, flushes |-> IF nc > 0 THEN 1 ELSE 0, flushAfter |-> nc, flushSize |-> nc, singles |-> 0, premature |-> FALSE]
+  [alive |-> TRUE, flushes |-> IF nc > 0 THEN 1 ELSE 0, flushAfter |-> nc, flushSize |-> nc, singles |-> 0, premature |-> FALSE,
+   \* a later batch re-using the ids is accepted iff the bookkeeping has freed them by the time the peer re-uses them
+   reuseOk |-> Instant[CodeFreesIdsAt] <= Instant[c.reuse]]
 
 BatchClauses(c, o) ==
   LET nc == NCalls(c.members) IN
@@ -86,12 +103,77 @@ BatchClauses(c, o) ==
                                  ELSE o.flushes = 1 /\ o.flushAfter = nc /\ ~o.premature,
    BatchReplyComplete |-> (nc > 0 /\ o.flushes = 1) => o.flushSize = nc,
    BatchNoStrayResponses |-> o.singles = 0,
-   \* once a batch is complete its ids are free again (C02)
+   \* once a batch is complete its ids are free again - from the moment the peer holds the reply (c.reuse), whether or
+   \* not the SDK's Write of the reply has returned (C02)
    BatchIdsReusable |-> o.reuseOk,
    \* members are handled in batch order: nothing later in the batch starts before an earlier NOTIFICATION's handler
    \* (calls release the dispatcher before their user handler runs, so two calls' starts are not ordered) (C03)
    BatchInOrder |-> \A p, q \in DOMAIN o.handled : (p < q /\ o.handled[p] > o.handled[q]) => c.members[o.handled[q]] # "notif"]
 HoldsBatch(c, o) == \A k \in DOMAIN BatchClauses(c, o) : BatchClauses(c, o)[k]
+
+\* ---- reply framing: the SDK's OUTGOING calls on the newline-delimited transports (C01)
+\* A client session (peer = a raw scripted server) or a server session (peer = a raw scripted client, 2025-03-26) has
+\* 1..3 calls outstanding.  The peer answers every one of them; JSON-RPC 2.0 lets it frame the answers as it likes:
+\* single messages, one array holding all responses, arrays mixing responses with a notification ("n") and with a
+\* call to the SDK side ("q"), several arrays, arrays of one, in every order.
+\* A framing = a sequence of frames; a frame = [arr |-> written as a JSON array?, items |-> its members in order].
+RespItems == <<"r1", "r2", "r3">>
+Resps(k) == {RespItems[i] : i \in 1..k}
+FrameExtras == {"n", "q"}
+Arrangements(S) == {s \in [1..Cardinality(S) -> S] : \A i, j \in 1..Cardinality(S) : i # j => s[i] # s[j]}
+\* f[i] = number of the frame that holds position i
+Labelings(m) == {f \in [1..m -> 1..m] : f[1] = 1 /\ \A i \in 1..(m - 1) : f[i + 1] \in {f[i], f[i] + 1}}
+MinOf(S) == CHOOSE x \in S : \A y \in S : x <= y
+MaxOf(S) == CHOOSE x \in S : \A y \in S : x >= y
+FrameItems(s, f, j) == LET idx == {i \in DOMAIN s : f[i] = j} IN SubSeq(s, MinOf(idx), MaxOf(idx))
+\* the ways to cut m positions into frames: <<labeling, the set of frames written as arrays>>; a frame of one member is
+\* sent bare or as an array of one, a longer frame is an array
+Cuts(m) == UNION { { <<f, {j \in 1..f[m] : Cardinality({i \in 1..m : f[i] = j}) > 1} \cup X>> :
+                       X \in SUBSET {j \in 1..f[m] : Cardinality({i \in 1..m : f[i] = j}) = 1} } : f \in Labelings(m) }
+\* every ordered partition of S into frames
+Framings(S) ==
+  { [j \in 1..t[2][1][Cardinality(S)] |-> [arr |-> j \in t[2][2], items |-> FrameItems(t[1], t[2][1], j)]] :
+      t \in Arrangements(S) \X Cuts(Cardinality(S)) }
+\* (without the side: the space of framings for k calls and the extras ex)
+FramingShapes(maxCalls) ==
+  UNION { UNION { { [ncalls |-> k, frames |-> fr] : fr \in Framings(Resps(k) \cup ex) } : ex \in SUBSET FrameExtras } : k \in 1..maxCalls }
+FramingSet(maxCalls) == { [t |-> "framing", side |-> sd, ncalls |-> c.ncalls, frames |-> c.frames] :
+                            sd \in {"client", "server"}, c \in FramingShapes(maxCalls) }
+
+\* what the code does: ioConn.Read decodes a frame as a whole, returns its first member and QUEUES the rest; the
+\* following Reads drain the queue before the next frame is taken, so every member is delivered, in the order sent
+RECURSIVE ReadAll(_, _)
+ReadAll(queue, frames) ==
+  IF queue # <<>> THEN <<Head(queue)>> \o ReadAll(Tail(queue), frames)
+  ELSE IF frames = <<>> THEN <<>>
+  ELSE <<Head(frames).items[1]>> \o ReadAll(Tail(Head(frames).items), Tail(frames))
+RECURSIVE Flat(_)
+Flat(frames) == IF frames = <<>> THEN <<>> ELSE Head(frames).items \o Flat(Tail(frames))
+CountOf(sq, x) == Cardinality({i \in DOMAIN sq : sq[i] = x})
+\* the calls whose response has been delivered once the first i frames have been read
+DoneAfter(c, i) == {k \in 1..c.ncalls : CountOf(ReadAll(<<>>, SubSeq(c.frames, 1, i)), RespItems[k]) > 0}
+ExpectedFraming(c) ==
+  [outcome |-> [k \in 1..c.ncalls |-> "own"],
+   doneAfter |-> [i \in 1..Len(c.frames) |-> DoneAfter(c, i)],
+   notifs |-> CountOf(ReadAll(<<>>, c.frames), "n"),
+   qAnswers |-> CountOf(ReadAll(<<>>, c.frames), "q"), qOther |-> 0, alive |-> TRUE]
+
+\* the property.  o.outcome[k], observed at quiescence after the last frame (nothing was cancelled or closed):
+\*   "own"     call k returned the response the peer sent for call k (result or error payload intact)
+\*   "other"   call k returned something else the peer sent (another call's response, an altered payload)
+\*   "failed"  call k returned an error the peer did not send
+\*   "blocked" call k has not returned
+FramingClauses(c, o) ==
+  [NoCrash |-> o.panic = "",
+   \* C01: whatever the framing, no outstanding call stays blocked once its response has been sent ...
+   CompletesAnyFraming |-> \A k \in 1..c.ncalls : o.outcome[k] # "blocked",
+   \* ... and a call that completes does so with ITS OWN response
+   OwnResponseAnyFraming |-> \A k \in 1..c.ncalls : o.outcome[k] \in {"own", "blocked"},
+   \* C02: a call to the SDK side that shares a frame with responses / a notification is answered exactly once, nothing
+   \* else is answered, and the session survives
+   FramedCallAnswered |-> o.qAnswers = CountOf(Flat(c.frames), "q") /\ o.qOther = 0,
+   FramedCallKeepsSession |-> CountOf(Flat(c.frames), "q") > 0 => o.alive]
+HoldsFraming(c, o) == \A k \in DOMAIN FramingClauses(c, o) : FramingClauses(c, o)[k]
 
 \* ---- streamable HTTP (stateful endpoint): the transport pre-validates, so a request that C02 requires to be
 \* REJECTED may be answered with an HTTP 4xx instead of a JSON-RPC error; a valid request must get its response.
@@ -107,7 +189,9 @@ HttpShapeClauses(c, o) ==
    ExactlyOneSameIdOr4xx |-> c.hasId =>
         \/ (o.status = 200 /\ o.count = 1 /\ o.otherResp = 0)
         \/ (MustReject(c) /\ o.status >= 400 /\ o.status < 500 /\ o.lines = 0),
-   Code |-> (c.hasId /\ o.status = 200 /\ o.count = 1 /\ Mandated(c) # {}) => o.code \in Mandated(c)]
+   Code |-> (c.hasId /\ o.status = 200 /\ o.count = 1 /\ Mandated(c) # {}) => o.code \in Mandated(c),
+   \* the answer (or the refusal) arrives: the POST does not stay open with nothing more to come
+   HttpExchangeCompletes |-> ~o.hung]
 
 HttpBatchSet(n) == { [t |-> "httpbatch", era |-> "2025-03-26", members |-> ms, json |-> j] : ms \in SeqsUpTo(n), j \in BOOLEAN }
 HasUnk(ms) == \E i \in DOMAIN ms : ms[i] = "unk"
@@ -119,6 +203,9 @@ HttpBatchClauses(c, o) ==
    \* has to be rejected anyway
    BatchAllAnswered |-> \/ (o.answered = nc /\ o.status = (IF nc = 0 THEN 202 ELSE 200))
                         \/ (HasUnk(c.members) /\ o.status >= 400 /\ o.status < 500 /\ o.answered = 0),
+   \* ... on that very POST, which then completes (o.hung: the POST was still open at quiescence after a bounded wait;
+   \* o.answered counts what had arrived by then)
+   BatchPostCompletes |-> ~o.hung,
    \* once a batch is complete its ids are free again
    BatchIdsReusable |-> o.reuseOk]
 =============================================================================
